@@ -470,6 +470,7 @@ def run_faults(ctx):
         prob = make_problem(prob_seed, n_leaves)
         with pipeline.workdir('ctmverif_c14_') as d:
             for fixture, cls in stagefix.STAGES.items():
+                t_fix = ctx.elapsed()
                 with pipeline.quiet():
                     st = cls(prob, d)
                 # baseline: the fixture must work when nothing is injected
@@ -504,6 +505,8 @@ def run_faults(ctx):
                     run_hdf5(ctx, st)
                     check_cleanup_race(ctx, prob_seed, n_leaves, 2, st=st)
                 clear(st)
+                ctx.log('faults %s: %d workers, %.1fs' % (
+                    fixture, n_workers, ctx.elapsed() - t_fix))
 
 
 # ---------------------------------------------------------------------------
